@@ -60,3 +60,45 @@ func lcGate(obj any, point string) {
 		lcLog.Unlock()
 	}
 }
+
+// Stream-use log (spec/StreamUse.tla): how the interpreter itself uses every pipe it creates while programs run:
+// open / close with the dependents counter as the pipe saw it under its own mutex, and appends.
+type suEvent struct {
+	Ev   string `json:"ev"`
+	Case int    `json:"case,omitempty"`
+	Obj  int    `json:"o,omitempty"`
+	N    int64  `json:"n"`
+}
+
+var suLog struct {
+	sync.Mutex
+	evs []suEvent
+	ids map[any]int
+}
+
+func suMark(ev string, id int) {
+	suLog.Lock()
+	suLog.evs = append(suLog.evs, suEvent{Ev: ev, Case: id})
+	suLog.Unlock()
+}
+
+func suEmit(obj any, ev string, s string, n []int64) {
+	if ev != "open" && ev != "close" && ev != "w.append" && ev != "fc" {
+		return
+	}
+	suLog.Lock()
+	if suLog.ids == nil {
+		suLog.ids = map[any]int{}
+	}
+	id, ok := suLog.ids[obj]
+	if !ok {
+		id = len(suLog.ids) + 1
+		suLog.ids[obj] = id
+	}
+	e := suEvent{Ev: ev, Obj: id}
+	if len(n) > 0 {
+		e.N = n[0]
+	}
+	suLog.evs = append(suLog.evs, e)
+	suLog.Unlock()
+}
